@@ -14,9 +14,11 @@ from collections import Counter
 from . import oracle, seams
 from .seams import SimSignal, SimHang, StepBudget, SimDeadlock, SimStop, Unmodelled
 
+LAST_WORLD = None
 LATE_PER_HELPER_S = 30.0  # virtual seconds allowed per helper invocation (anchor: 1 s timeout)
 LATE_BASE_S = 1.0
 STEP_BUDGET = 50_000_000
+VT_BUDGET_S = 900.0  # virtual seconds one compile_code call may take before it counts as "never returns"
 
 
 class HelperChannel:
@@ -26,11 +28,13 @@ class HelperChannel:
         self.send, self.recv = send, recv
         self.local = {}
 
-    def outcome(self, script, mode, data):
+    def outcome(self, script, mode, data, args=()):
+        # a script that is given arguments (e.g. the name of a file to write its result to) acts on the file
+        # system: it is executed every time, never answered from the memo
         key = (script, mode, data)
-        if key in self.local:
+        if key in self.local and not args:
             return self.local[key]
-        self.send({"helper": {"script": script, "mode": mode, "data": data.hex()}})
+        self.send({"helper": {"script": script, "mode": mode, "data": data.hex(), "args": list(args)}})
         r = self.recv()
         if r is None:
             raise Unmodelled("zygote closed the helper channel")
@@ -39,7 +43,8 @@ class HelperChannel:
                 r[k] = bytes.fromhex(r[k])
         if r.get("state") == "harness-error":
             raise Unmodelled("helper stub: %s" % r.get("msg"))
-        self.local[key] = r
+        if not args:
+            self.local[key] = r
         return r
 
 
@@ -60,6 +65,7 @@ class World:
         self.req_helpers = Counter()
         self.session = None
         self.steps = None
+        self.sched = None
         self.fd_stray = {1: 0, 2: 0}
 
     def event(self, *a):
@@ -91,9 +97,9 @@ class World:
             return self._plans[idx]
         return {"kind": "ok", "d": 0.2}
 
-    def helper_outcome(self, script, mode, data):
+    def helper_outcome(self, script, mode, data, args=()):
         self.probe("helper-script-run")
-        return self.chan.outcome(script, mode, data)
+        return self.chan.outcome(script, mode, data, args)
 
     def inherited_output(self, fd, data):
         if self.session is not None:
@@ -154,15 +160,17 @@ def _fd_read(m, limit=4096):
         return b""
 
 
-def _call_guarded(world, fn, budget=STEP_BUDGET):
+def _call_guarded(world, fn, budget=STEP_BUDGET, vt_budget=VT_BUDGET_S):
     """call SUT code; classify how it ended.  -> (kind, value) kind in ok|raised|hang|deadlock|stop|harness"""
     sc = world.steps
     sc.begin(budget)
+    world.clock.budget, world.clock.deadline = vt_budget, world.clock.now + vt_budget
     try:
         try:
             return "ok", fn()
         finally:
             sc.end()
+            world.clock.deadline = None
     except Unmodelled as e:
         return "harness", "unmodelled seam use: %s" % e
     except (SimHang, StepBudget) as e:
@@ -313,6 +321,7 @@ def run_daemon(world, spec):
         compiler._DO_TIMING = True
     session = client.Session(world, sess_spec)
     world.session = session
+    world.sched.session = session
     stdin, stdout, stderr = client.make_streams(session, sess_spec.get("stdin_errors", "surrogateescape"))
     saved = (sys.stdin, sys.stdout, sys.stderr, sys.__stdout__, sys.__stderr__, sys.__stdin__)
     sys.stdin = sys.__stdin__ = stdin
@@ -324,9 +333,15 @@ def run_daemon(world, spec):
 
     def go():
         runpy.run_module("stationeers_pytrapic.mod_daemon", run_name="__main__", alter_sys=False)
+        # interpreter shutdown waits for the non-daemon threads the program has started
+        try:
+            world.sched.drain()
+        except SimHang:
+            session._violate("no-exit", "the daemon's main returned but a thread it started never ends: the process does not exit")
+            raise SimStop("threads never end")
 
     budget = STEP_BUDGET * max(1, len(sess_spec["lines"]))
-    kind, res = _call_guarded(world, go, budget)
+    kind, res = _call_guarded(world, go, budget, VT_BUDGET_S * max(1, len(sess_spec["lines"])))
     # interpreter shutdown flushes the standard streams
     flush_err = None
     if kind in ("ok", "raised"):
@@ -403,6 +418,8 @@ def execute(spec, send, recv):
     """entry point in the run fork"""
     fds = _fd_capture()
     world = World(spec, HelperChannel(send, recv))
+    global LAST_WORLD
+    LAST_WORLD = world  # development aid (sim/debugrun.py)
     seams.install(world, step_monitoring=bool(spec.get("knobs", {}).get("step_clock", True)))
     saved_out, saved_err = sys.stdout, sys.stderr
     if spec["kind"] == "api":
